@@ -12,7 +12,7 @@ const SPEC: Spec = Spec {
         "operands are fixed dense LCG digit strings without zero digits, so the count is deterministic",
         "thresholds carry margin over the measured values on the pinned tree (max doubling ratio 3.082, W(4096)/4096^2 = 0.074, unbalanced max ratio 1.0000)",
     ],
-    bounds_quick: "balanced n in {256,512,...,16384} and every n in 33..=4096 (doubling ratio W(2n)/W(n)); unbalanced bank n x {2n-1,2n,64n} for n in {33,40,100,256,300,1000} and every lx <= 300 x 7 length relations; 17 multiplication forms x n in {64,256,512,1024,2048,4096} and x 8 unbalanced shapes (both operand orders)",
+    bounds_quick: "balanced n in {256,512,...,16384} and every n in 33..=4096 (doubling ratio W(2n)/W(n)); unbalanced bank n x {2n-1,2n,64n} for n in {33,40,100,256,300,1000} and every lx <= 300 x 7 length relations; 17 multiplication forms x n in {64,256,512,1024,2048,4096} and x 8 unbalanced shapes (both operand orders); 8 operand value shapes (interior zero digits, zero blocks, all-ones, sparse) x n in {1024,2048,4096} x both operand orders",
     bounds_thorough: "balanced every n in 33..=8192 and 16384; unbalanced bank and every lx <= 700 x 7 length relations; 17 forms x 6 sizes",
     hang_secs: 120,
     probes: Some(probes),
@@ -286,6 +286,112 @@ fn body(ctx: &mut Ctx) {
             let ok = SLACK_OK.swap(0, Ordering::Relaxed);
             if ok > 0 {
                 ctx.count("operands_with_capacity_for_the_whole_product", ok);
+            }
+        }
+    }
+    // ---- operand values: the bounds hold for every operand value, not only for dense digits -- operands with
+    // interior zero digits, zero blocks, all-ones digits and low / high zero runs
+    if ctx.space("VAL") {
+        fn shaped(l: usize, shape: usize, salt: u64) -> Vec<u64> {
+            let mut v = dense(l, salt);
+            match shape {
+                0 => {
+                    for (i, d) in v.iter_mut().enumerate() {
+                        if i % 16 == 15 && i + 1 < l {
+                            *d = 0;
+                        }
+                    }
+                }
+                1 => {
+                    for (i, d) in v.iter_mut().enumerate() {
+                        if i % 2 == 1 && i + 1 < l {
+                            *d = 0;
+                        }
+                    }
+                }
+                2 => v[l / 2] = 0,
+                3 => {
+                    for d in v.iter_mut().skip(l / 4).take(l / 2) {
+                        *d = 0;
+                    }
+                }
+                4 => v.iter_mut().for_each(|d| *d = u64::MAX),
+                5 => {
+                    for d in v.iter_mut().take(l / 3) {
+                        *d = 0;
+                    }
+                }
+                6 => {
+                    for (i, d) in v.iter_mut().enumerate() {
+                        if i % 64 != 0 && i + 1 < l {
+                            *d = 0; // sparse: one non-zero digit in 64
+                        }
+                    }
+                }
+                _ => {
+                    for (i, d) in v.iter_mut().enumerate() {
+                        *d = if i % 3 == 0 { 1 } else { u64::MAX };
+                    }
+                }
+            }
+            v
+        }
+        const NAMES: [&str; 8] = ["zero every 16th digit", "zero every 2nd digit", "one zero digit in the middle", "zero block in the middle half", "all-ones digits", "low third zero", "one non-zero digit in 64", "1 / all-ones mix"];
+        let sizes = [1024usize, 2048, 4096];
+        let mut o = 0u64;
+        for shape in 0..8usize {
+            for both in [false, true] {
+                let take = ctx.mine(o);
+                o += 1;
+                if !take {
+                    continue;
+                }
+                let mut prev: Option<(usize, u64)> = None;
+                for &n in &sizes {
+                    ctx.case();
+                    ctx.nontrivial(1);
+                    ctx.inner(n as u64);
+                    let ad = shaped(n, shape, 1);
+                    let bd = if both { shaped(n, shape, 2) } else { dense(n, 2) };
+                    let (a, b) = (bu(&ad), bu(&bd));
+                    ctx.calls(2);
+                    let before = MAC_WORK.load(Ordering::Relaxed);
+                    let r = guard(|| (&a * &b, &b * &a));
+                    let w = (MAC_WORK.load(Ordering::Relaxed) - before + 1) / 2; // mean of the two operand orders
+                    let before = MAC_WORK.load(Ordering::Relaxed);
+                    let r1 = guard(|| &b * &a);
+                    let w_ba = MAC_WORK.load(Ordering::Relaxed) - before;
+                    let w_max = w_ba.max(2 * w - w_ba.min(2 * w));
+                    if let (Ok((p, q)), Ok(q2)) = (&r, &r1) {
+                        ctx.compared(1);
+                        if p != q || q != q2 {
+                            ctx.viol(format!("value-shape product {} n={}", NAMES[shape], n), "a*b differs from b*a", vec![], "equal".into(), "different".into());
+                        }
+                        if n == 1024 {
+                            ctx.compared(1);
+                            if nat_of(p) != Nat::from_digits(&ad).mul(&Nat::from_digits(&bd)) {
+                                ctx.viol(format!("value-shape product {} n={} vs refint", NAMES[shape], n), "product differs from refint", vec![], "exact product".into(), "different".into());
+                            }
+                        }
+                    } else {
+                        ctx.viol(format!("value-shape panic {} n={}", NAMES[shape], n), "multiplication panicked", vec![], "product".into(), "panic".into());
+                    }
+                    ctx.outcome(w_max ^ ((shape as u64) << 48) ^ ((both as u64) << 47));
+                    ctx.compared(2);
+                    if w_max > (n * n) as u64 {
+                        ctx.viol(format!("value-shape schoolbook {} both={} n={}", NAMES[shape], both, n), "more digit multiplications than the schoolbook method for operands of this value shape", vec![], format!("<= {}", n * n), format!("{}", w_max));
+                    }
+                    if let Some((pn, pw)) = prev {
+                        if n == 2 * pn && pw > 0 && (w_max as f64) > 3.5 * (pw as f64) && w_max > (n * n / 16) as u64 {
+                            ctx.viol(format!("value-shape doubling {} both={} n={}", NAMES[shape], both, pn), "doubling the operand length multiplies the digit-multiplication count by more than 3.5 for operands of this value shape", vec![NAMES[shape].to_string()], format!("W(2n) <= 3.5*W(n) = {:.0}", 3.5 * pw as f64), format!("W({})={} W({})={} ratio={:.3}", pn, pw, n, w_max, w_max as f64 / pw as f64));
+                        }
+                    }
+                    if n == 4096 && w_max >= (4096u64 * 4096) / 4 {
+                        ctx.viol(format!("value-shape quarter {} both={}", NAMES[shape], both), "the 4096 x 4096 product needs a quarter or more of the schoolbook digit multiplications for operands of this value shape", vec![NAMES[shape].to_string()], format!("< {}", 4096u64 * 4096 / 4), format!("{}", w_max));
+                    }
+                    prev = Some((n, w_max));
+                }
+                ctx.sample(|| format!("{} ({}): W(n) for n in {:?}, both operand orders; last W={}", NAMES[shape], if both { "both operands" } else { "against a dense operand" }, sizes, prev.map_or(0, |p| p.1)));
             }
         }
     }
